@@ -44,6 +44,10 @@ def run(ctx):
     # the verdict at an exact cost boundary must not depend on spend order: the budget is only tested by charge-paired guards
     from . import c04
     c04.c04_3(ctx, R="C06.2")
+    # every relative/birth/skipped-relative arm records the spend for the ephemeral check itself (not via a flag another arm's
+    # early-return keys on), so the verdict does not depend on which of two conditions comes first: shared with C03.6
+    from . import c03
+    c03.c03_6(ctx, R="C06.2")
 
 
 def c06_1(ctx):
